@@ -2,6 +2,7 @@ package main
 
 import (
 	"fmt"
+	"math"
 	"math/rand"
 	"os"
 	"os/exec"
@@ -202,43 +203,15 @@ func rectSetChild(c *hlib.Ctx) {
 			nops = 0
 		}
 		grid := 2 + c.Rng.Intn(4)
-		rs := toolbox3d.NewRectSet()
-		var ops []string
-		var last *model3d.Rect
+		flat := c.Rng.Intn(4) == 0 // this history may contain zero-thickness boxes
+		h := genHist(c, nops, grid, flat, 0)
+		var rs *toolbox3d.RectSet
+		ops := h.tokens()
 		failed := hlib.Guard(func() string {
-			for i := 0; i < nops; i++ {
-				var lo, hi [3]float64
-				for a := 0; a < 3; a++ {
-					lo[a] = float64(c.Rng.Intn(grid))
-					hi[a] = lo[a] + 1 + float64(c.Rng.Intn(grid-int(lo[a])))
-				}
-				r := model3d.NewRect(model3d.NewCoord3DArray(lo), model3d.NewCoord3DArray(hi))
-				kind := "a"
-				switch c.Rng.Intn(12) {
-				case 0, 1, 2:
-					kind = "r"
-				case 3:
-					if last != nil {
-						// remove / re-add exactly an earlier box
-						r = last
-						if c.Rng.Intn(2) == 0 {
-							kind = "r"
-						}
-					}
-				}
-				if kind == "a" {
-					rs.Add(r)
-					c.Stat("c04.rectset.add", 1)
-				} else {
-					rs.Remove(r)
-					c.Stat("c04.rectset.remove", 1)
-				}
-				last = r
-				ops = append(ops, kind+" "+ratsOf(r.MinVal.Array())+" "+ratsOf(r.MaxVal.Array()))
-			}
+			rs = h.build()
 			return ""
 		})
-		head := fmt.Sprintf("c04 rs %d %s", len(ops), strings.Join(ops, " "))
+		head := fmt.Sprintf("c04 rs %d %s", len(h.ops), strings.Join(ops, " "))
 		if failed != "" {
 			c.Emit(head+" 0", failed)
 			continue
@@ -313,6 +286,12 @@ func rectSetChild(c *hlib.Ctx) {
 				}
 				got := solid.Contains(model3d.NewCoord3DArray(p))
 				want := len(plain) > 0 && plain.Contains(model3d.NewCoord3DArray(p))
+				if isGeneric(p) && got != h.sem(p) {
+					c.PropFail("prop:c04/rectset_history_solid_eq_union", fmt.Sprintf("RectSet.Solid().Contains=%v but boxes added minus boxes removed say %v: ops=[%s] point=%v", got, h.sem(p), strings.Join(ops, " "), p))
+				}
+				if isGeneric(p) {
+					c.Stat("c04.rectset.query_generic", 1)
+				}
 				if got != want {
 					c.PropFail("prop:c04/rectset_solid_eq_any", fmt.Sprintf("RectSet.Solid().Contains=%v but the stored rects say %v: ops=[%s] point=%v", got, want, strings.Join(ops, " "), p))
 				}
@@ -349,4 +328,122 @@ func bucket(n int) string {
 	default:
 		return "17+"
 	}
+}
+
+// A RectSet history: Add / Remove of a box, AddRectSet / RemoveRectSet of the
+// set another history builds.
+type histOp struct {
+	kind string // a r A R
+	rect *model3d.Rect
+	sub  *hist
+}
+
+type hist struct {
+	ops []histOp
+}
+
+func genHist(c *hlib.Ctx, nops, grid int, flat bool, depth int) *hist {
+	h := &hist{}
+	var last *model3d.Rect
+	for i := 0; i < nops; i++ {
+		if depth < 2 && c.Rng.Intn(7) == 0 {
+			sub := genHist(c, 1+c.Rng.Intn(3), grid, flat, depth+1)
+			kind := "A"
+			if c.Rng.Intn(3) == 0 {
+				kind = "R"
+			}
+			h.ops = append(h.ops, histOp{kind: kind, sub: sub})
+			c.Stat("c04.rectset.op_"+kind, 1)
+			continue
+		}
+		var lo, hi [3]float64
+		for a := 0; a < 3; a++ {
+			lo[a] = float64(c.Rng.Intn(grid))
+			hi[a] = lo[a] + 1 + float64(c.Rng.Intn(grid-int(lo[a])))
+			if flat && c.Rng.Intn(4) == 0 {
+				hi[a] = lo[a]
+				c.Stat("c04.rectset.zero_thickness_axis", 1)
+			}
+		}
+		r := model3d.NewRect(model3d.NewCoord3DArray(lo), model3d.NewCoord3DArray(hi))
+		kind := "a"
+		switch c.Rng.Intn(12) {
+		case 0, 1, 2:
+			kind = "r"
+		case 3:
+			if last != nil {
+				// remove / re-add exactly an earlier box
+				r = last
+				if c.Rng.Intn(2) == 0 {
+					kind = "r"
+				}
+			}
+		}
+		last = r
+		h.ops = append(h.ops, histOp{kind: kind, rect: r})
+		c.Stat("c04.rectset.op_"+kind, 1)
+	}
+	return h
+}
+
+func (h *hist) tokens() []string {
+	var res []string
+	for _, o := range h.ops {
+		switch o.kind {
+		case "a", "r":
+			res = append(res, o.kind+" "+ratsOf(o.rect.MinVal.Array())+" "+ratsOf(o.rect.MaxVal.Array()))
+		default:
+			res = append(res, fmt.Sprintf("%s %d", o.kind, len(o.sub.ops)))
+			res = append(res, o.sub.tokens()...)
+		}
+	}
+	return res
+}
+
+// build replays the history on the real RectSet.
+func (h *hist) build() *toolbox3d.RectSet {
+	rs := toolbox3d.NewRectSet()
+	for _, o := range h.ops {
+		switch o.kind {
+		case "a":
+			rs.Add(o.rect)
+		case "r":
+			rs.Remove(o.rect)
+		case "A":
+			rs.AddRectSet(o.sub.build())
+		case "R":
+			rs.RemoveRectSet(o.sub.build())
+		}
+	}
+	return rs
+}
+
+// sem is the point set the history denotes: boxes added minus boxes removed, in order.
+func (h *hist) sem(p [3]float64) bool {
+	in := false
+	c := model3d.NewCoord3DArray(p)
+	for _, o := range h.ops {
+		switch o.kind {
+		case "a":
+			in = in || o.rect.Contains(c)
+		case "r":
+			in = in && !o.rect.Contains(c)
+		case "A":
+			in = in || o.sub.sem(p)
+		case "R":
+			in = in && !o.sub.sem(p)
+		}
+	}
+	return in
+}
+
+// isGeneric: box coordinates are integers, so a point with no integer
+// coordinate lies on no plane a history can split at.
+func isGeneric(p [3]float64) bool {
+	for _, v := range p {
+		if v == math.Floor(v) {
+			return false
+		}
+	}
+	return true
 }
